@@ -260,6 +260,11 @@ for _p in ("C14", "C15", "C16"):
 # round 9: "no higher than the buyer's limit" speaks about the limit the buyer SUBMITTED; it reaches the book through the side-dependent rounding of `_add_order` (C01 depends on it)
 PROPS["C01"]["tasks"] = PROPS["C01"]["tasks"] + [t for t in ("Market._add_order",) if t not in PROPS["C01"]["tasks"]]
 PROPS["C05"]["tasks"] = PROPS["C05"]["tasks"] + [t for t in ("Market._execute_orders",) if t not in PROPS["C05"]["tasks"]]      # every fill is reported to the logger the market holds (fills are observed through it)
+# round 10: the caps a session runs with are the configured ones (C09 depends on the session generation block); the time stamps of the records come from the book operations (C10)
+PROPS["C09"]["tasks"] = PROPS["C09"]["tasks"] + [t for t in ("SequentialRunner._generate_sessions[session]", "Session.setup") if t not in PROPS["C09"]["tasks"]]
+PROPS["C10"]["tasks"] = PROPS["C10"]["tasks"] + [t for t in ("OrderBook.cancel", "OrderBook.add", "OrderBook._check_expired_orders", "OrderBook._set_time") if t not in PROPS["C10"]["tasks"]]
+for _p in ("C01", "C04", "C06", "C08", "C17", "C19", "C20"):
+    PROPS[_p]["tasks"] = PROPS[_p]["tasks"] + ["census:overrides"]      # the proofs about Market / Agent methods cover the subclasses of pams only while these do not redefine them
 from .census import CALLERS as _CALLERS
 for _g, (_ps, _r, _t) in _CALLERS.items():
     for _p in _ps:
